@@ -30,13 +30,13 @@ def main():
     try:
         os.makedirs(os.path.join(scratch, "ffuzzy", "tests"), exist_ok=True)
         shutil.copy(demo, os.path.join(scratch, "ffuzzy", "tests", "seed_demo.rs"))
-        r = sh(["cargo", "test", "--offline", "-p", "ffuzzy", "--test", "seed_demo"], cwd=scratch)
+        r = sh(["cargo", "test", "--offline", "-p", "ffuzzy", "--test", "seed_demo"] + os.environ.get("SEED_DEMO_ARGS", "").split(), cwd=scratch)
         meta["ran"].append({"cmd": "cargo test --offline -p ffuzzy --test seed_demo (unchanged tree)", "passed": r.returncode == 0})
         ok &= r.returncode == 0
         a = sh(["git", "-C", scratch, "apply", os.path.abspath(patch)])
         meta["ran"].append({"cmd": "git apply patch.diff", "passed": a.returncode == 0, "out": a.stdout[-300:]})
         ok &= a.returncode == 0
-        r = sh(["cargo", "test", "--offline", "-p", "ffuzzy", "--test", "seed_demo"], cwd=scratch)
+        r = sh(["cargo", "test", "--offline", "-p", "ffuzzy", "--test", "seed_demo"] + os.environ.get("SEED_DEMO_ARGS", "").split(), cwd=scratch)
         meta["ran"].append({"cmd": "cargo test --offline -p ffuzzy --test seed_demo (with the change)", "failed_as_required": r.returncode != 0})
         ok &= r.returncode != 0
         os.remove(os.path.join(scratch, "ffuzzy", "tests", "seed_demo.rs"))
